@@ -31,6 +31,7 @@ import (
 	"github.com/cosmos/cosmos-sdk/client"
 	codectypes "github.com/cosmos/cosmos-sdk/codec/types"
 	"github.com/cosmos/cosmos-sdk/store/rootmulti"
+	"github.com/cosmos/gogoproto/proto"
 	storetypes "github.com/cosmos/cosmos-sdk/store/types"
 	sdk "github.com/cosmos/cosmos-sdk/types"
 	authtx "github.com/cosmos/cosmos-sdk/x/auth/tx"
@@ -48,6 +49,9 @@ import (
 	exocoreapp "github.com/ExocoreNetwork/exocore/app"
 	testtx "github.com/ExocoreNetwork/exocore/testutil/tx"
 	"github.com/ExocoreNetwork/exocore/utils"
+	assetskeeper "github.com/ExocoreNetwork/exocore/x/assets/keeper"
+	assetstypes "github.com/ExocoreNetwork/exocore/x/assets/types"
+	delegationtypes "github.com/ExocoreNetwork/exocore/x/delegation/types"
 	exoevmtypes "github.com/ExocoreNetwork/exocore/x/evm/types"
 )
 
@@ -60,6 +64,7 @@ type EvmWorldCfg struct {
 	MaxGas      int64  `json:"maxGas"`      // consensus Block.MaxGas; 0 = unlimited (-1)
 	Gateway     string `json:"gateway"`     // "gw" (fixture contract) or "a1".."a3"
 	BigGas      uint64 `json:"bigGas"`      // the "big" gas limit class
+	Devs        []string `json:"devs"`      // deviations (spec/EvmTx.tla DEVS) the strict lane assumes; header only
 }
 
 type evmDriver struct {
@@ -75,10 +80,17 @@ type evmDriver struct {
 	created []common.Address
 	fcAddr  sdk.AccAddress
 	depABI  abi.ABI
+	dlgABI  abi.ABI
+	lzNonce uint64
+	lastBatch []builtTx // messages of the latest Batch event (for ReplayLast)
 	tracked map[string]bool // hex(address bytes) of every projected party
 }
 
 const depositABI = `[{"inputs":[{"internalType":"uint32","name":"clientChainID","type":"uint32"},{"internalType":"bytes","name":"assetsAddress","type":"bytes"},{"internalType":"bytes","name":"stakerAddress","type":"bytes"},{"internalType":"uint256","name":"opAmount","type":"uint256"}],"name":"depositLST","outputs":[{"internalType":"bool","name":"success","type":"bool"},{"internalType":"uint256","name":"latestAssetState","type":"uint256"}],"stateMutability":"nonpayable","type":"function"}]`
+
+const delegationABI = `[{"inputs":[{"internalType":"uint32","name":"clientChainID","type":"uint32"},{"internalType":"uint64","name":"lzNonce","type":"uint64"},{"internalType":"bytes","name":"assetsAddress","type":"bytes"},{"internalType":"bytes","name":"stakerAddress","type":"bytes"},{"internalType":"bytes","name":"operatorAddr","type":"bytes"},{"internalType":"uint256","name":"opAmount","type":"uint256"}],"name":"delegate","outputs":[{"internalType":"bool","name":"success","type":"bool"}],"stateMutability":"nonpayable","type":"function"},{"inputs":[{"internalType":"uint32","name":"clientChainID","type":"uint32"},{"internalType":"uint64","name":"lzNonce","type":"uint64"},{"internalType":"bytes","name":"assetsAddress","type":"bytes"},{"internalType":"bytes","name":"stakerAddress","type":"bytes"},{"internalType":"bytes","name":"operatorAddr","type":"bytes"},{"internalType":"uint256","name":"opAmount","type":"uint256"}],"name":"undelegate","outputs":[{"internalType":"bool","name":"success","type":"bool"}],"stateMutability":"nonpayable","type":"function"}]`
+
+var precompileDelegation = common.HexToAddress("0x0000000000000000000000000000000000000805")
 
 var precompileAssets = common.HexToAddress("0x0000000000000000000000000000000000000804")
 
@@ -133,13 +145,13 @@ func codeStore() []byte {
 	return a.bytes()
 }
 
-// "gw": flag = CALL(assets precompile, calldata[32:]);
+// "gw": flag = CALL(address in word1, calldata[64:]);
 //   word0 = 1 -> REVERT with the flag as return data; else flag = 0 -> REVERT (failure propagates), else STOP
 func codeGateway() []byte {
 	a := newAsm()
-	a.push1(0x20).op(opCALLDATASIZE).op(opSUB) // size
-	a.op(opDUP1).push1(0x20).push1(0).op(opCALLDATACOPY)
-	a.push1(0).push1(0).op(opDUP3).push1(0).push1(0).push2(0x0804).op(opGAS).op(opCALL)
+	a.push1(0x40).op(opCALLDATASIZE).op(opSUB) // size
+	a.op(opDUP1).push1(0x40).push1(0).op(opCALLDATACOPY)
+	a.push1(0).push1(0).op(opDUP3).push1(0).push1(0).push1(0x20).op(opCALLDATALOAD).op(opGAS).op(opCALL)
 	a.push1(0).op(opCALLDATALOAD).push1(1).op(opEQ).pushL("rev").op(opJUMPI)
 	a.op(opISZERO).pushL("fail").op(opJUMPI)
 	a.op(opSTOP)
@@ -261,6 +273,8 @@ func newEvmDriver(wc EvmWorldCfg, seed int64) *evmDriver {
 	var err error
 	d.depABI, err = abi.JSON(strings.NewReader(depositABI))
 	must(err)
+	d.dlgABI, err = abi.JSON(strings.NewReader(delegationABI))
+	must(err)
 	d.setup()
 	for _, a := range d.addr {
 		d.tracked[hex.EncodeToString(a.Bytes())] = true
@@ -375,6 +389,15 @@ func (d *evmDriver) setup() {
 	mk("gw", codeGateway())
 	d.newBlock()
 	mk("w", codeWrapper(d.addr["gw"]))
+	// every sender starts as a staker with a free deposit and a delegation to the fixture operator, so that
+	// delegate / undelegate calls have something to work on (keeper calls on the deliver state, setup only)
+	for _, m := range []string{"a1", "a2", "a3"} {
+		ctx := d.ctx()
+		must(d.w.App.AssetsKeeper.PerformDepositOrWithdraw(ctx, &assetskeeper.DepositWithdrawParams{ClientChainLzID: LzID, Action: assetstypes.DepositLST,
+			AssetsAddress: d.w.AssetAddr["lst"].Bytes(), StakerAddress: d.addr[m].Bytes(), OpAmount: sdkmath.NewInt(100000)}))
+		must(d.w.App.DelegationKeeper.DelegateTo(ctx, &delegationtypes.DelegationOrUndelegationParams{ClientChainID: LzID, Action: assetstypes.DelegateTo,
+			AssetsAddress: d.w.AssetAddr["lst"].Bytes(), OperatorAddress: d.w.OpAddrs[0], StakerAddress: d.addr[m].Bytes(), OpAmount: sdkmath.NewInt(50000)}))
+	}
 	ctx := d.ctx()
 	p, err := d.w.App.AssetsKeeper.GetParams(ctx)
 	must(err)
@@ -425,7 +448,7 @@ func (d *evmDriver) cfgJSON() map[string]interface{} {
 	return map[string]interface{}{
 		"world": d.wc.Name, "accts": []string{"a1", "a2", "a3"}, "contracts": []string{"c", "gw", "w", "pre"},
 		"mingp": ND(fm.MinGasPrice), "mult": ND(fm.MinGasMultiplier), "blockgas": d.wc.MaxGas, "gateway": d.wc.Gateway,
-		"noBaseFee": fm.NoBaseFee,
+		"noBaseFee": fm.NoBaseFee, "devs": append([]string{}, d.wc.Devs...),
 	}
 }
 
@@ -463,7 +486,19 @@ func (d *evmDriver) project() map[string]interface{} {
 	if info, err := app.AssetsKeeper.GetStakingAssetInfo(ctx, d.w.AssetID["lst"]); err == nil {
 		dep = info.StakingTotalAmount
 	}
+	wd, dl := map[string]Num{}, map[string]Num{}
+	for _, m := range []string{"a1", "a2", "a3"} {
+		wd[m], dl[m] = N64(0), N64(0)
+		sid := d.w.StakerID[strings.Replace(m, "a", "s", 1)]
+		if info, err := app.AssetsKeeper.GetStakerSpecifiedAssetInfo(ctx, sid, d.w.AssetID["lst"]); err == nil {
+			wd[m] = NI(info.WithdrawableAmount)
+		}
+		if di, err := app.DelegationKeeper.GetSingleDelegationInfo(ctx, sid, d.w.AssetID["lst"], d.w.OpAddrs[0].String()); err == nil && !di.UndelegatableShare.IsNil() {
+			dl[m] = NI(di.UndelegatableShare.TruncateInt())
+		}
+	}
 	return map[string]interface{}{
+		"wd": wd, "dl": dl,
 		"nonce": nonce, "bal": bal, "fc": NB(d.bal(ctx, d.fcAddr)), "sink": NB(sink),
 		"bg": deliverCtx(app.BaseApp).BlockGasMeter().GasConsumed(), "bf": NB(d.baseFee(ctx)),
 		"stor": stor, "dep": NI(dep), "h": d.hdr.Height,
@@ -547,25 +582,50 @@ func (d *evmDriver) exec(e BEvent, tw *TraceWriter) {
 	case "NewBlock":
 		d.newBlock()
 		st := d.project()
-		tw.Emit(map[string]interface{}{"ev": "NewBlock", "a": map[string]interface{}{"bf": st["bf"], "fc": st["fc"]}, "st": st, "dg": d.digests(),
+		tw.Emit(map[string]interface{}{"ev": "NewBlock", "a": map[string]interface{}{"bf": st["bf"], "fc": st["fc"], "wd": st["wd"]}, "st": st, "dg": d.digests(),
 			"o": map[string]interface{}{"code": 0, "gu": 0, "vmfail": false}})
 	case "Tx":
 		d.execTx(e, tw)
+	case "Batch":
+		d.execBatch(e, tw)
+	case "ReplayLast":
+		// re-deliver, alone, the identical signed LAST message of the previous Batch (probe for nonce replay)
+		if len(d.lastBatch) == 0 {
+			panic("ReplayLast without a Batch")
+		}
+		d.deliverBuilt(d.lastBatch[len(d.lastBatch)-1], e.A, tw)
 	default:
 		panic("unknown event " + e.Ev)
 	}
 }
 
+func epad32(b []byte) []byte {
+	out := make([]byte, 32)
+	copy(out, b)
+	return out
+}
+
 func word(v *big.Int) []byte { return common.LeftPadBytes(v.Bytes(), 32) }
 
-func (d *evmDriver) execTx(e BEvent, tw *TraceWriter) {
+// builtTx: one model transaction concretised against the current real state
+type builtTx struct {
+	msg  *evmtypes.MsgEthereumTx
+	key  *ethsecp256k1.PrivKey
+	t    map[string]interface{} // logged transaction (spec/EvmTx.tla `t`)
+	to   string
+	k    map[string]json.RawMessage
+}
+
+// buildTx turns the classes of e into a concrete transaction; nonceAhead = number of earlier messages of the
+// same sender in the same Cosmos tx (their sequence increments are not in the state yet)
+func (d *evmDriver) buildTx(e BEvent, nonceAhead map[string]uint64) builtTx {
 	ctx := d.ctx()
 	app := d.w.App
 	s, to, ty, mode := e.str("s"), e.str("to"), e.str("ty"), e.str("mode")
 	pc, tc, gl, vc, nc := e.str("pc"), e.str("tc"), e.str("gl"), e.str("vc"), e.str("nc")
 	from := d.addr[s]
 	balS := d.bal(ctx, from.Bytes())
-	seq := app.EvmKeeper.GetNonce(ctx, from)
+	seq := app.EvmKeeper.GetNonce(ctx, from) + nonceAhead[s]
 
 	// nonce
 	nonce := seq
@@ -584,8 +644,36 @@ func (d *evmDriver) execTx(e BEvent, tw *TraceWriter) {
 	amt := big.NewInt(int64(1 + d.rng.Intn(1000)))
 	var toAddr *common.Address
 	var data []byte
+	// restaking operation for staker = sender: deposit / delegate / undelegate, amount by class
+	opClass := e.str("op")
+	if opClass == "" {
+		opClass = "dep"
+	}
+	op := strings.TrimSuffix(opClass, "x")
+	pre := d.project()
+	avail := func(k string) *big.Int { v := pre[k].(map[string]Num)[s]; return v.b }
+	switch opClass {
+	case "dlg", "und":
+		a := avail(map[string]string{"dlg": "wd", "und": "dl"}[opClass])
+		if a.Sign() > 0 {
+			amt = new(big.Int).Add(big.NewInt(1), new(big.Int).Rand(d.rng, a))
+		} else {
+			amt = big.NewInt(1)
+		}
+	case "dlgx", "undx":
+		amt = new(big.Int).Add(avail(map[string]string{"dlgx": "wd", "undx": "dl"}[opClass]), big.NewInt(int64(1+d.rng.Intn(5))))
+	}
+	preTarget := precompileAssets
 	deposit := func() []byte {
-		bz, err := d.depABI.Pack("depositLST", uint32(LzID), pad32(d.w.AssetAddr["lst"].Bytes()), pad32(from.Bytes()), amt)
+		if op == "dep" {
+			bz, err := d.depABI.Pack("depositLST", uint32(LzID), epad32(d.w.AssetAddr["lst"].Bytes()), epad32(from.Bytes()), amt)
+			must(err)
+			return bz
+		}
+		preTarget = precompileDelegation
+		d.lzNonce++
+		name := map[string]string{"dlg": "delegate", "und": "undelegate"}[op]
+		bz, err := d.dlgABI.Pack(name, uint32(LzID), d.lzNonce, epad32(d.w.AssetAddr["lst"].Bytes()), epad32(from.Bytes()), []byte(d.w.OpAddrs[0].String()), amt)
 		must(err)
 		return bz
 	}
@@ -608,11 +696,13 @@ func (d *evmDriver) execTx(e BEvent, tw *TraceWriter) {
 	case "pre":
 		a := d.addr["pre"]
 		toAddr = &a
+		op = "dep"
 		data = deposit()
 	case "gw", "w":
 		a := d.addr[to]
 		toAddr = &a
-		data = append(modeWord(mode), deposit()...)
+		payload := deposit()
+		data = append(append(modeWord(mode), common.LeftPadBytes(preTarget.Bytes(), 32)...), payload...)
 	default:
 		a := d.addr[to]
 		toAddr = &a
@@ -730,21 +820,12 @@ func (d *evmDriver) execTx(e BEvent, tw *TraceWriter) {
 		}
 	}
 	msg := evmtypes.NewTx(args)
-	txBytes := d.encode(msg, d.keys[s])
-	chk, chkLog := d.checkAdmission(txBytes)
-	if len(chkLog) > 160 {
-		chkLog = chkLog[:160]
-	}
-	var res abci.ResponseDeliverTx
-	panicked := ""
-	func() {
-		defer func() {
-			if r := recover(); r != nil {
-				panicked = fmt.Sprint(r)
-			}
-		}()
-		res = d.w.App.BaseApp.DeliverTx(abci.RequestDeliverTx{Tx: txBytes})
-	}()
+	t := map[string]interface{}{"s": s, "to": to, "ty": ty, "gas": gas, "price": NB(price), "tip": NB(tip), "value": NB(value),
+		"nonce": nonce, "intr": intr, "mode": mode, "word": NB(wordV), "op": op, "amt": NB(amt)}
+	return builtTx{msg: msg, key: d.keys[s], t: t, to: to, k: e.A}
+}
+
+func abciCodeOf(res abci.ResponseDeliverTx, panicked string) int {
 	code := int(res.Code)
 	if res.Codespace != "" && res.Codespace != "sdk" && res.Codespace != "undefined" {
 		code += 1000
@@ -752,6 +833,39 @@ func (d *evmDriver) execTx(e BEvent, tw *TraceWriter) {
 	if panicked != "" {
 		code = -1
 	}
+	return code
+}
+
+func (d *evmDriver) deliverBytes(txBytes []byte) (res abci.ResponseDeliverTx, panicked string) {
+	defer func() {
+		if r := recover(); r != nil {
+			panicked = fmt.Sprint(r)
+		}
+	}()
+	res = d.w.App.BaseApp.DeliverTx(abci.RequestDeliverTx{Tx: txBytes})
+	return
+}
+
+func clip(s string, n int) string {
+	if len(s) > n {
+		return s[:n]
+	}
+	return s
+}
+
+func (d *evmDriver) execTx(e BEvent, tw *TraceWriter) {
+	d.deliverBuilt(d.buildTx(e, nil), e.A, tw)
+}
+
+func (d *evmDriver) deliverBuilt(b builtTx, classes map[string]json.RawMessage, tw *TraceWriter) {
+	e := BEvent{Ev: "Tx", A: classes}
+	if b.k != nil {
+		e.A = b.k
+	}
+	txBytes := d.encode(b.msg, b.key)
+	chk, chkLog := d.checkAdmission(txBytes)
+	res, panicked := d.deliverBytes(txBytes)
+	code := abciCodeOf(res, panicked)
 	vmerr, retok := "", "na"
 	nlogs := 0
 	if res.Code == 0 && panicked == "" {
@@ -759,22 +873,88 @@ func (d *evmDriver) execTx(e BEvent, tw *TraceWriter) {
 		must(err)
 		vmerr = r.VmError
 		nlogs = len(r.Logs)
-		if (to == "pre") && len(r.Ret) >= 32 {
+		if (b.to == "pre") && len(r.Ret) >= 32 {
 			retok = fmt.Sprint(r.Ret[31] == 1)
 		}
 	}
 	gu := res.GasUsed
-	t := map[string]interface{}{"s": s, "to": to, "ty": ty, "gas": gas, "price": NB(price), "tip": NB(tip), "value": NB(value),
-		"nonce": nonce, "intr": intr, "mode": mode, "word": NB(wordV), "amt": NB(amt)}
 	post := d.project()
-	logS := res.Log
-	if len(logS) > 300 {
-		logS = logS[:300]
-	}
 	tw.Emit(map[string]interface{}{"ev": "Tx",
-		"a": map[string]interface{}{"t": t, "x": map[string]interface{}{"gasEvm": gu, "vmfail": vmerr != "", "gasRej": gu, "wflag": post["stor"].(map[string]Num)["w"], "inner": post["stor"].(map[string]Num)["w1"].String() == "2"}, "k": e.A},
+		"a": map[string]interface{}{"t": b.t, "x": map[string]interface{}{"gasEvm": gu, "vmfail": vmerr != "", "gasRej": gu, "wflag": post["stor"].(map[string]Num)["w"], "inner": post["stor"].(map[string]Num)["w1"].String() == "2"}, "k": e.A},
 		"o": map[string]interface{}{"code": code, "gu": gu, "vmfail": vmerr != "", "chk": chk},
-		"r": map[string]interface{}{"abci": res.Code, "codespace": res.Codespace, "log": logS, "gw": res.GasWanted, "vmerr": vmerr, "retok": retok, "nlogs": nlogs, "panic": panicked,
-			"hash": msg.Hash, "chklog": chkLog},
+		"r": map[string]interface{}{"abci": res.Code, "codespace": res.Codespace, "log": clip(res.Log, 300), "gw": res.GasWanted, "vmerr": vmerr, "retok": retok, "nlogs": nlogs, "panic": panicked,
+			"hash": b.msg.Hash, "chklog": clip(chkLog, 160)},
+		"st": post, "dg": d.digests()})
+}
+
+// execBatch: ONE Cosmos tx carrying several MsgEthereumTx (each signed by its own sender)
+func (d *evmDriver) execBatch(e BEvent, tw *TraceWriter) {
+	var ks []BEvent
+	{
+		var raw []map[string]json.RawMessage
+		must(json.Unmarshal(e.A["ks"], &raw))
+		for _, r := range raw {
+			ks = append(ks, BEvent{Ev: "Tx", A: r})
+		}
+	}
+	ahead := map[string]uint64{}
+	var bs []builtTx
+	for _, k := range ks {
+		b := d.buildTx(k, ahead)
+		ahead[k.str("s")]++
+		bs = append(bs, b)
+	}
+	d.lastBatch = bs
+	signer := ethtypes.LatestSignerForChainID(d.chainID)
+	var msgs []sdk.Msg
+	gasSum := uint64(0)
+	fee := sdk.Coins{}
+	for _, b := range bs {
+		b.msg.From = AddrOf(b.key).Hex()
+		must(b.msg.Sign(signer, testtx.NewSigner(b.key)))
+		b.msg.From = ""
+		msgs = append(msgs, b.msg)
+		gasSum += b.msg.GetGas()
+		fee = fee.Add(sdk.Coin{Denom: utils.BaseDenom, Amount: sdkmath.NewIntFromBigInt(b.msg.GetFee())})
+	}
+	txb := d.txCfg.NewTxBuilder()
+	must(txb.SetMsgs(msgs...))
+	opt, err := codectypes.NewAnyWithValue(&evmtypes.ExtensionOptionsEthereumTx{})
+	must(err)
+	txb.(authtx.ExtensionOptionsTxBuilder).SetExtensionOptions(opt)
+	txb.SetGasLimit(gasSum)
+	txb.SetFeeAmount(fee)
+	txBytes, err := d.txCfg.TxEncoder()(txb.GetTx())
+	must(err)
+	chk, chkLog := d.checkAdmission(txBytes)
+	res, panicked := d.deliverBytes(txBytes)
+	code := abciCodeOf(res, panicked)
+	gus, vmfails, vmerrs := []uint64{}, []bool{}, []string{}
+	if res.Code == 0 && panicked == "" {
+		var txData sdk.TxMsgData
+		must(proto.Unmarshal(res.Data, &txData))
+		for _, mr := range txData.MsgResponses {
+			var r evmtypes.MsgEthereumTxResponse
+			must(proto.Unmarshal(mr.Value, &r))
+			gus = append(gus, r.GasUsed)
+			vmfails = append(vmfails, r.VmError != "")
+			vmerrs = append(vmerrs, r.VmError)
+		}
+	}
+	post := d.project()
+	var ts, xs, kk []interface{}
+	for i, b := range bs {
+		ts = append(ts, b.t)
+		x := map[string]interface{}{"gasEvm": uint64(0), "vmfail": false, "gasRej": res.GasUsed, "wflag": post["stor"].(map[string]Num)["w"], "inner": false}
+		if i < len(gus) {
+			x["gasEvm"], x["vmfail"] = gus[i], vmfails[i]
+		}
+		xs = append(xs, x)
+		kk = append(kk, b.k)
+	}
+	tw.Emit(map[string]interface{}{"ev": "Batch",
+		"a": map[string]interface{}{"ts": ts, "xs": xs, "ks": kk},
+		"o": map[string]interface{}{"code": code, "gu": res.GasUsed, "gus": gus, "vmfails": vmfails, "chk": chk},
+		"r": map[string]interface{}{"abci": res.Code, "codespace": res.Codespace, "log": clip(res.Log, 300), "gw": res.GasWanted, "vmerrs": vmerrs, "panic": panicked, "chklog": clip(chkLog, 160)},
 		"st": post, "dg": d.digests()})
 }
